@@ -8,7 +8,6 @@ Tools for dealing with ROIs (Regions of Interest).
 In this context ROI is a 2d slice of an image. For example a top left corner of 10 pixels square
 will have an ROI that can be constructed with :py:func:`numpy.s_` like this: ``s_[0:10, 0:10]``.
 """
-import math
 from collections import abc
 from typing import List, Optional, Protocol, Sequence, Tuple, Union, overload
 
@@ -124,9 +123,8 @@ class Tiles:
         base_shape = shape_(base_shape)
         self._tile_shape = tile_shape
         self._base_shape = base_shape
-        ny, nx = (
-            int(math.ceil(float(N) / n)) for N, n in zip(base_shape.yx, tile_shape.yx)
-        )
+        # integer ceil division: float(N) / n loses tiles for N > 2**53
+        ny, nx = (-(-N // n) for N, n in zip(base_shape.yx, tile_shape.yx))
         self._shape = shape_((ny, nx))
 
     def crop(self, roi: ROI) -> "Tiles":
